@@ -14,6 +14,13 @@ pub struct Event {
 
 pub struct Ctx {
     rng: Rng,
+    /// second, independent stream for transport-level decisions (read/write sizes, EINTR, eager pumps,
+    /// thread scheduling): their number can differ by one or two between runs when OpenSSL produces an
+    /// ECDSA signature of another length, and that must not shift the workload decisions
+    net_rng: Rng,
+    pub net_vals: Vec<u64>,
+    pub net_labels: Vec<&'static str>,
+    net_pos: usize,
     pub replay: bool,
     pub tape_vals: Vec<u64>,
     pub tape_labels: Vec<&'static str>,
@@ -41,16 +48,28 @@ pub struct Ctx {
 
 impl Ctx {
     pub fn generate(seed: u64, scenario: &str, case: u64) -> Ctx {
-        Ctx::new(Rng::for_case(seed, scenario, case), false, Vec::new())
+        let mut c = Ctx::new(Rng::for_case(seed, scenario, case), false, Vec::new());
+        c.net_rng = Rng::for_case(seed ^ 0x6e65_7473_7472_6561, scenario, case);
+        c
     }
 
     pub fn replay(vals: Vec<u64>) -> Ctx {
         Ctx::new(Rng::new(0), true, vals)
     }
 
+    pub fn replay2(vals: Vec<u64>, net_vals: Vec<u64>) -> Ctx {
+        let mut c = Ctx::new(Rng::new(0), true, vals);
+        c.net_vals = net_vals;
+        c
+    }
+
     fn new(rng: Rng, replay: bool, vals: Vec<u64>) -> Ctx {
         Ctx {
             rng,
+            net_rng: Rng::new(1),
+            net_vals: Vec::new(),
+            net_labels: Vec::new(),
+            net_pos: 0,
             replay,
             tape_vals: vals,
             tape_labels: Vec::new(),
@@ -87,6 +106,30 @@ impl Ctx {
             self.pos += 1;
             v
         }
+    }
+
+    /// one transport-level decision in 0..n (separate stream and tape)
+    pub fn net_choose(&mut self, label: &'static str, n: u64) -> u64 {
+        let n = n.max(1);
+        if self.replay {
+            let v = if self.net_pos < self.net_vals.len() { self.net_vals[self.net_pos] % n } else { 0 };
+            self.net_pos += 1;
+            if self.net_labels.len() < 100_000 {
+                self.net_labels.push(label);
+            }
+            v
+        } else {
+            let v = self.net_rng.below(n);
+            self.net_vals.push(v);
+            self.net_labels.push(label);
+            self.net_pos += 1;
+            v
+        }
+    }
+
+    pub fn net_chance(&mut self, label: &'static str, num: u64, den: u64) -> bool {
+        let v = self.net_choose(label, den);
+        v >= den - num.min(den)
     }
 
     /// true with probability num/den; 0 on the tape is "false" (benign)
